@@ -7,6 +7,15 @@ claims = json.load(open(os.path.join(here, "claims.json")))
 props = [json.loads(l) for l in open(os.path.join(root, "properties.jsonl"))]
 ids = [p["id"] for p in props]
 hooks_commits = claims.get("hook_commits", [])
+# every comment-only contract commit in /repo (message starts with "verif:") is a hook commit
+try:
+    out = subprocess.check_output(["git", "-C", "/repo", "log", "--format=%H %s", "--reverse"], text=True)
+    for line in out.splitlines():
+        sha, _, msg = line.partition(" ")
+        if msg.startswith("verif:") and sha not in hooks_commits:
+            hooks_commits.append(sha)
+except Exception:
+    pass
 man = {
     "version": 1,
     "setup_cmd": "cd /verif/govc && GOFLAGS=-mod=mod GOPROXY=off GOSUMDB=off GOTOOLCHAIN=local go build -o /verif/bin/govc .",
